@@ -148,6 +148,11 @@ def run(ctx):
         if any("rev" in c for c in its) or not any("iter" in c.lower() for c in its):
             r.violate("controller|iteration", f"HtmlRewriteController::handle_bail_out does not iterate bail_out_handlers front to back: {its}", hb[0].loc())
 
+    # ------------------------------------------------------------------ R11.6 (shared with C10 R10.1)
+    # the bail-out flush re-emits buffer + data: Arena::append must not have copied part of `data` before it failed
+    from .c10 import rule_charge_before_grow
+    rule_charge_before_grow(ctx, mir, rid="R11.6")
+
     ctx.not_decided += ["the concatenation equality itself for every failure index (run-time positions)", "the two documented exceptions (content being removed; text handler failing on a later chunk of a partly emitted text node)"]
     return ("CFG path rules (dominance / must-pass-through, exhaustive over all paths of the MIR control-flow graphs) on "
             "TransformStream::write/end, Dispatcher::{try_produce_token_from_lexeme,flush_for_bail_out,run_bail_out_handlers,finish}; "
